@@ -57,7 +57,14 @@ def execute(ctx, case):
     w = lambda **kw: (lambda: dict({"mu_pos": mu_p, "mu_neg": mu_n, "sigma_pos": sp, "sigma_neg": sn, "score_class": sc}, **kw))  # noqa: E731
     sess.observe("R-data")
     C = lambda ok, what, key, **kw: sess.check("R-data", bool(ok), what, w(**kw), sig=sig, key=key)  # noqa: E731
-    ds = NormalDataset(mu_pos=mu_p, mu_neg=mu_n, sigma_pos=sp, sigma_neg=sn, score_class=sc)
+    if case["_seed"] % 3 == 0:
+        # a history on one object: built with other parameters, queried, then its public fields re-assigned (it is a plain mutable
+        # dataclass): every analytic function must answer for the parameters the object now shows
+        ds = NormalDataset(mu_pos=mu_p + 1.5, mu_neg=mu_n - 0.7, sigma_pos=sp * 2.0, sigma_neg=sn * 0.5, score_class=sc)
+        ds.fnr(0.1), ds.fpr(0.1), ds.threshold_at_fnr(0.3), ds.threshold_at_fpr(0.3), ds.roc(fnr=[0.2, 0.4])
+        ds.mu_pos, ds.mu_neg, ds.sigma_pos, ds.sigma_neg = mu_p, mu_n, sp, sn
+    else:
+        ds = NormalDataset(mu_pos=mu_p, mu_neg=mu_n, sigma_pos=sp, sigma_neg=sn, score_class=sc)
     C(ds.mu_pos == mu_p and ds.mu_neg == mu_n and ds.sigma_pos == sp and ds.sigma_neg == sn, "constructor does not keep the given parameters", "data-ctor", stored=[ds.mu_pos, ds.mu_neg])
     dflt = NormalDataset(mu_pos=mu_p)
     C(dflt.mu_neg == -mu_p and dflt.sigma_pos == 3.75 and dflt.sigma_neg == 3.0 and dflt.p_pos == 0.5, "defaulted mu_neg is not -mu_pos", "data-ctor-default")
